@@ -150,24 +150,24 @@ Theorem c11_absolute_word : forall cwd wd word, is_absolute word = true -> glue_
 Proof. exact glue_path_absolute. Qed.
 Print Assumptions c11_absolute_word.
 
-(* dependency-info: the inputs of a written file become keys and the command succeeds - but the keys are the
-   operands VERBATIM ... *)
-Theorem c11_depinfo_keys : forall cwd wd version recs,
+(* dependency-info: the inputs of a written file become keys, resolved exactly like Makefile-style words
+   (c11_relative_word, c11_relative_word_default_wd, c11_absolute_word apply to them), and the command succeeds *)
+Theorem c11_depinfo_relative_resolution : forall cwd wd version recs,
   wf_operand version = true -> wf_recs recs = true ->
   process_discovered StyleDependencyInfo cwd wd [Some (di_write version recs)] =
-  (flat_map (fun r => match fst r with KInput => [snd r] | _ => [] end) recs, true).
+  (map (glue_path cwd wd) (flat_map (fun r => match fst r with KInput => [snd r] | _ => [] end) recs), true).
 Proof. exact glue_written_depinfo. Qed.
-Print Assumptions c11_depinfo_keys.
+Print Assumptions c11_depinfo_relative_resolution.
 
-(* ... so "relative paths are resolved against the command's working directory" is REFUTED for the
-   dependency-info style by the faithful model (witness replayed on llbuild by c11.py, scenario
-   depinfo-relative-wd): input [h] reported from working directory [/w/sub] is keyed as [h], not [/w/sub/h]. *)
-Theorem c11_depinfo_relative_resolution_refuted :
+(* The glue as it was before /repo commit ba34c0a (process_depinfo_v0: operands VERBATIM as keys) violated this
+   clause; kept as documentation of what the fix changed.  The witness history is in the corpus of c11.py
+   (dependency-info, relative path, working-directory): input [h] reported from [/w/sub] was keyed [h]. *)
+Theorem c11_depinfo_v0_relative_resolution_refuted :
   exists cwd wd data p,
     simple_abs cwd = true /\ simple_abs wd = true /\ head_sep p = false /\
     di_parse data = [Version [118]; Input p] /\
-    process_discovered StyleDependencyInfo cwd wd [Some data] = ([p], true) /\
-    glue_path cwd wd p = [47; 119; 47; 115; 117; 98; 47; 104] /\
-    p <> glue_path cwd wd p.
-Proof. exact depinfo_relative_resolution_refuted. Qed.
-Print Assumptions c11_depinfo_relative_resolution_refuted.
+    process_depinfo_v0 data = ([p], true) /\
+    p <> glue_path cwd wd p /\
+    process_discovered StyleDependencyInfo cwd wd [Some data] = ([[47; 119; 47; 115; 117; 98; 47; 104]], true).
+Proof. exact depinfo_v0_relative_resolution_refuted. Qed.
+Print Assumptions c11_depinfo_v0_relative_resolution_refuted.
